@@ -452,10 +452,10 @@ def hashctx_batch(job):
 
 TIERS = {
     # runs, sim seconds cap, hash contexts, hashctx corpus extra docs
-    "quick": {"runs": 2400, "sim_s": 55, "ctx": 24, "docs": 600, "ctx_s": 60,
-              "sweep_pairs": 3, "sweep_stride": 3, "sweep_s": 30},
+    "quick": {"runs": 2400, "sim_s": 40, "ctx": 24, "docs": 600, "ctx_s": 60,
+              "sweep_pairs": 4, "sweep_stride": 3, "sweep_s": 25, "base_s": 25},
     "thorough": {"runs": 60000, "sim_s": 900, "ctx": 192, "docs": 4000, "ctx_s": 500,
-                 "sweep_pairs": 40, "sweep_stride": 1, "sweep_s": 600},
+                 "sweep_pairs": 40, "sweep_stride": 1, "sweep_s": 600, "base_s": 400},
 }
 
 
@@ -475,6 +475,8 @@ class Checker:
         self.log = log
         self.root = seeds.root_seed(self.verif_seed, PROP, tier)
         self.F = {}               # key digest -> (outcome digest, provenance)
+        self.key_ops = {}         # key digest -> the judged operation
+        self.sweep_bases = {}
         self.suspects = []        # disagreements / invariant violations
         self.harness = []         # harness problems (never verdicts)
         self.baseline_cache = {}
@@ -497,8 +499,10 @@ class Checker:
         self.shim_confirmed = 0
 
     # -- helpers -----------------------------------------------------------
-    def observe(self, kd, od, prov, ctxkind):
+    def observe(self, kd, od, prov, ctxkind, op=None):
         self.cnt["observations"] += 1
+        if op is not None and kd not in self.key_ops:
+            self.key_ops[kd] = op
         self.key_contexts[kd] = self.key_contexts.get(kd, 0) + 1
         self.key_ctxkinds.setdefault(kd, set()).add(ctxkind)
         cur = self.F.get(kd)
@@ -565,9 +569,10 @@ class Checker:
                 self.interleavings.add(res["digest"])
             ctxkind = "threads" if n > 1 else ("shim" if scn["setorder"] != "off" else "seq")
             for (t, j, kd, od) in res["obs"]:
-                if not self.observe(kd, od, ("sim", i, t, j), ctxkind):
+                eop = effective_op(scn, res, t, j)
+                if not self.observe(kd, od, ("sim", i, t, j), ctxkind, op=eop):
                     self.suspects[-1]["scn"] = to_replayable(scn, res)
-                    self.suspects[-1]["op"] = effective_op(scn, res, t, j)
+                    self.suspects[-1]["op"] = eop
             for (cls, t, j, detail) in res["viol"]:
                 self.suspects.append({"class": cls, "scn": to_replayable(scn, res),
                                       "at": (t, j), "detail": detail, "run": i})
@@ -607,10 +612,10 @@ class Checker:
 
         def doc():
             fr = [tg.pick(ties)] if ties and g.random() < 0.6 else None
-            t = tg.document(n_items=g.randrange(2, 5), frags=None)
+            t = tg.document(n_items=g.randrange(1, 3), frags=None)
             if fr:
                 t = tg.cite(fr[0]) + "; " + t
-            return t[:700]
+            return t[:300]
 
         def mkop(text):
             x = g.random()
@@ -621,8 +626,8 @@ class Checker:
                 return {"op": "H1", "text": text, "ra": True}
             return {"op": "H1", "text": text}
 
-        for pi in range(npairs):
-            if time.monotonic() > deadline:
+        for pi in range(npairs * 3):
+            if time.monotonic() > deadline or sw["pairs"] >= npairs:
                 break
             a, b = doc(), doc()
             if g.random() < 0.2:
@@ -636,9 +641,11 @@ class Checker:
                 self.harness.append({"sweep": res})
                 continue
             na = max([n for (t, j, n) in res["op_events"] if t == 0 and j == 0] or [0])
-            if na <= 0:
+            if na <= 0 or na > self.cfg.get("sweep_max_events", 6000):
+                sw["skipped_long"] = sw.get("skipped_long", 0) + 1
                 continue
             sw["pairs"] += 1
+            self.sweep_bases[pi] = base
             off = 1 + (pi % stride)
             points = list(range(off, na + 1, stride))
             sw["points_total"] += na
@@ -658,7 +665,8 @@ class Checker:
                 self.cnt["switches"] += r["switches"]
                 self.interleavings.add(r["digest"])
                 for (t, j, kd, od) in r["obs"]:
-                    if not self.observe(kd, od, ("sweep", pi, scn["table"][0][2], t), "threads"):
+                    if not self.observe(kd, od, ("sweep", pi, scn["table"][0][2], t), "threads",
+                                        op=scn["threads"][t][j]):
                         self.suspects[-1]["scn"] = dict(scn)
                         self.suspects[-1]["op"] = scn["threads"][t][j]
                 for (cls, t, j, detail) in r["viol"]:
@@ -672,6 +680,51 @@ class Checker:
             if len(sw["samples"]) < 2:
                 sw["samples"].append({"A": _op_brief(opa), "B": _op_brief(opb), "line_events_of_A": na,
                                       "preemption_points_run": done[0]})
+
+    # -- phase A3: isolated baselines ----------------------------------------------
+    def phase_baselines(self):
+        """Every key observed so far is evaluated once more alone, in a fresh
+        child of the pristine parent (no threads, no history, no shim).  A key
+        that was only ever observed *inside* histories or interleavings thereby
+        gets a clean reference value; without it a history-dependent outcome
+        seen once would have nothing to disagree with."""
+        deadline = time.monotonic() + self.cfg["base_s"]
+        todo = sorted(self.key_ops.items())
+        self.baselines = {"keys": len(todo), "evaluated": 0, "disagreements": 0}
+
+        def got(i, job, res):
+            kd, op = todo[i]
+            if "_harness" in res:
+                self.harness.append({"baseline": res})
+                return
+            self.baselines["evaluated"] += 1
+            self.baseline_cache[kd] = res
+            cur = self.F.get(kd)
+            if not self.observe(kd, res["od"], ("baseline", kd), "isolated"):
+                self.baselines["disagreements"] += 1
+                sus = self.suspects[-1]
+                sus["op"] = op
+                sus["class"] = "purity"
+                sus["polluted"] = cur[1]
+
+        forkpool.run_jobs([op for kd, op in todo], eval_isolated, workers=_cpu(), timeout=120,
+                          on_result=got, deadline=deadline, stop=lambda: len(self.suspects) >= 40)
+
+    def scenario_of(self, prov):
+        """Rebuild (and re-execute, to get its explicit schedule) the scenario an
+        observation came from."""
+        if prov[0] == "sim":
+            scn = self.sg.scenario(seeds.run_seed(self.root, prov[1]))
+            res = forkpool.fork_call(exec_scenario, scn, timeout=120)
+            if "_harness" in res:
+                return None
+            return to_replayable(scn, res)
+        if prov[0] == "sweep":
+            base = self.sweep_bases.get(prov[1])
+            if base is None:
+                return None
+            return dict(base, table=[[0, 0, prov[2], "switch", 1]])
+        return None
 
     # -- phase B: hash contexts -----------------------------------------------
     def corpus(self, atlas):
@@ -724,7 +777,7 @@ class Checker:
             self.ctx_done += 1
             h = job[0]
             for k, od in enumerate(res):
-                if not self.observe(kds[k], od, ("hashseed", h, k), "hashseed"):
+                if not self.observe(kds[k], od, ("hashseed", h, k), "hashseed", op=oplist[k]):
                     s = self.suspects[-1]
                     s["op"] = oplist[k]
                     s["class"] = "hashseed"
@@ -919,6 +972,22 @@ class Checker:
                     "outcomes": {str(pair[0]): fa, str(pair[1]): fb}}
         if "scn" in s:
             return self.judge_scenario(s["scn"], cls)
+        if s.get("polluted") is not None:
+            prov = s["polluted"]
+            if prov[0] == "hashseed":
+                pair = self.confirm_hashseed(s["op"])
+                if pair:
+                    m = self.minimise_hashseed(s["op"], *pair)
+                    if m:
+                        o, fa, fb = m
+                        return {"class": "hashseed", "kind": "hashseed",
+                                "signature": {"class": "hashseed", "op": o}, "op": o,
+                                "hashseeds": list(pair),
+                                "outcomes": {str(pair[0]): fa, str(pair[1]): fb}}
+                return None
+            scn = self.scenario_of(prov)
+            if scn is not None:
+                return self.judge_scenario(scn, "purity")
         return None
 
     def judge_scenario(self, scn, cls):
@@ -1002,6 +1071,7 @@ class Checker:
             "set_order_iterations_seen": c["shim_iterations"],
             "set_order_iterations_reordered": c["shim_reordered"],
             "single_preemption_sweep": getattr(self, "sweep", None),
+            "isolated_baselines": getattr(self, "baselines", None),
             "forced_window_hits": dict(sorted(self.window_hits.items())),
             "faults_injected": {
                 "cancellations_fired": c["cancellations"],
@@ -1057,6 +1127,7 @@ def run(tier, verif_seed, log=print):
     t0 = time.monotonic()
     ck = Checker(tier, verif_seed, log)
     log(f"[C15] tier={tier} VERIF_SEED={verif_seed} root={ck.root} repo={bootstrap.repo_head()}")
+    bootstrap.warm_pattern_caches(log)
     atlas = atlas_mod.build(workers=_cpu())
     log(f"[C15] atlas: {atlas_mod.summary(atlas)} ({time.monotonic() - t0:.1f}s)")
     started = ck.phase_sim(atlas)
@@ -1066,6 +1137,9 @@ def run(tier, verif_seed, log=print):
     log(f"[C15] single-pre-emption sweep: {ck.sweep['pairs']} pairs, {ck.sweep['runs']} runs over "
         f"{ck.sweep['points_total']} pre-emption points (stride {ck.sweep['stride']}), "
         f"suspects={len(ck.suspects)} ({time.monotonic() - t0:.1f}s)")
+    ck.phase_baselines()
+    log(f"[C15] isolated baselines: {ck.baselines['evaluated']}/{ck.baselines['keys']} keys, "
+        f"disagreements={ck.baselines['disagreements']} ({time.monotonic() - t0:.1f}s)")
     ck.phase_hashctx(atlas)
     log(f"[C15] hash contexts: {ck.ctx_done} x {ck.ctx_ops} ops, suspects={len(ck.suspects)} "
         f"({time.monotonic() - t0:.1f}s)")
